@@ -2,7 +2,7 @@
   FcProofs.Lemmas.DiffCells — assembling the cell fields of a difference data set; entries of `subArr`.
 -/
 import FcProofs.Lemmas.DiffDict
-namespace Fc
+namespace Fc.C14
 
 theorem mem_distinctKeys {κ : Type} [BEq κ] [LawfulBEq κ] (k : κ) (l : List κ) :
     k ∈ distinctKeys l ↔ k ∈ l := by
@@ -65,7 +65,7 @@ theorem subArr_spec (a1 a2 : NdArr) (d : DArr) (h : subArr a1 a2 = some d) :
     simp [List.getElem?_zipWith, h1, h2]
 
 theorem subArr_swap_neg (a1 a2 : NdArr) (F : Fmt) (hs : a1.shape = a2.shape)
-    (h1 : a1.dtype.std) (h2 : a2.dtype.std) (hp : promote a1.dtype a2.dtype = some (.flt F)) :
+    (h1 : stdDType a1.dtype) (h2 : stdDType a2.dtype) (hp : promote a1.dtype a2.dtype = some (.flt F)) :
     subArr a2 a1 = (subArr a1 a2).map DArr.neg := by
   have hp' : promote a2.dtype a1.dtype = some (.flt F) := by rw [promote_comm h2 h1]; exact hp
   simp only [subArr, hp, hp', Option.map_some, DArr.neg, Option.some.injEq, DArr.mk.injEq, true_and]
@@ -97,4 +97,4 @@ theorem wrapInt_zero (s : Bool) (b : Nat) (hb : 1 ≤ b) : wrapInt s b 0 = 0 := 
   intro _
   omega
 
-end Fc
+end Fc.C14
